@@ -734,7 +734,7 @@ class Exec:
         mods = assigned_names(st.body) | set(c.loop_modifies.get(k, []))
         if isinstance(st, ast.For):
             mods |= target_names(st.target)
-        heap_mods = mutated_names(st.body) | set(c.loop_modifies.get(k, []))
+        heap_mods = (mutated_names(st.body) | set(c.loop_modifies.get(k, []))) - set(getattr(c, "loop_ignore", {}).get(k, []))
         self._only_augassigned = augassigned_only(st.body)
         self._loop_kinds = c.loop_kinds.get(k, {})
         for ex in mutated_exprs(st.body):
